@@ -1,7 +1,7 @@
 (* Text forms of model outcomes for the correspondence harness, and the case dispatcher
    that the extracted driver calls. *)
 From Coq Require Import Init.Byte NArith ZArith List Bool.
-Require Import Ojg.Base.Bytes Ojg.Base.Jv Ojg.Gen.OjMaps Ojg.Json.Machine Ojg.Json.Ref Ojg.Json.Frontends.
+Require Import Ojg.Base.Bytes Ojg.Base.Jv Ojg.Gen.OjMaps Ojg.Json.Machine Ojg.Json.Ref Ojg.Json.RefParse Ojg.Json.Frontends.
 Import ListNotations.
 Open Scope Z_scope.
 
@@ -50,3 +50,10 @@ Definition strip_bom (w : bytes) : bytes :=
   | _ => w
   end.
 Definition spec_accepts (one : bool) (w : bytes) : bool := ref_accepts one (strip_bom w).
+
+(* specification-side parse: "R" = not a JSON text, else the documents (numbers as b<literal>) *)
+Definition spec_parse (one pairs : bool) (w : bytes) : bytes :=
+  match ref_parse one pairs (strip_bom w) with
+  | None => [x52]
+  | Some docs => x4f :: x20 :: join_sp (map (fun v => show (canon v)) docs)
+  end.
